@@ -6,6 +6,7 @@
 #include <csignal>
 #include <map>
 #include <set>
+#include <sys/wait.h>
 #include <unistd.h>
 #define private public
 #define protected public
@@ -39,6 +40,24 @@ static void on_alarm(int) {
 }
 static void oracle(const std::string &what) {
   std::cout << "ORACLE line=" << lineno << " " << what << "\n";
+}
+// run a call of the implementation that may abort (cmac_error) or read out of bounds in a forked
+// child: true = it came back and the property held
+template < typename F > static bool probe_ok(F f) {
+  std::cout.flush();
+  fflush(stdout);
+  const pid_t pid = fork();
+  if (pid == 0) {
+    alarm(20);
+    if (!freopen("/dev/null", "w", stderr)) {
+    }
+    const bool ok = f();
+    _exit(ok ? 0 : 1);
+  }
+  int st = 0;
+  if (pid < 0 || waitpid(pid, &st, 0) < 0)
+    return false;
+  return WIFEXITED(st) && WEXITSTATUS(st) == 0;
 }
 static ll sll(const std::string &s) { return std::strtoll(s.c_str(), nullptr, 10); }
 
@@ -338,18 +357,29 @@ static void op_amr(const std::vector< std::string > &w) {
   } else if (sub == "loc" && w.size() == 5) {
     const CoordinateVector<> p(dbl(w[2]), dbl(w[3]), dbl(w[4]));
     {
+      // rounding puts the computed block index / a child index out of range (the answer line says
+      // so, from the same arithmetic as the model); the property is then checked on the real
+      // get_key / get_cell in a forked child: they must come back with a leaf that contains the
+      // position
       const int oor = amr_out_of_range(*amr, amr_box, amr_n, p);
-      if (oor == 1) {
-        uint_fast32_t bi[3];
-        for (int i = 0; i < 3; ++i)
-          bi[i] = amr_n[i] * (p[i] - amr_box.get_anchor()[i]) / amr_box.get_sides()[i];
-        std::cout << "amr loc out-of-range " << bi[0] << " " << bi[1] << " " << bi[2] << "\n";
-        oracle("locate-index-out-of-range amr");
-        return;
-      }
-      if (oor == 2) {
-        std::cout << "amr loc out-of-range child\n";
-        oracle("locate-index-out-of-range amr-child");
+      if (oor != 0) {
+        if (oor == 1) {
+          uint_fast32_t bi[3];
+          for (int i = 0; i < 3; ++i)
+            bi[i] = amr_n[i] * (p[i] - amr_box.get_anchor()[i]) / amr_box.get_sides()[i];
+          std::cout << "amr loc out-of-range " << bi[0] << " " << bi[1] << " " << bi[2] << "\n";
+        } else {
+          std::cout << "amr loc out-of-range child\n";
+        }
+        const CoordinateVector<> scp = box_scale(amr_box);
+        const bool ok = probe_ok([&]() {
+          const amrkey_t k = amr->get_key(p);
+          AMRGridCell< uint64_t > &cc = (*amr)[k];
+          return cc.is_single_cell() && in_box(cc.get_geometry(), p, AMR_TOL, scp) &&
+                 &amr->get_cell(p) == &cc.value();
+        });
+        if (!ok)
+          oracle(oor == 1 ? "locate-index-out-of-range amr" : "locate-index-out-of-range amr-child");
         return;
       }
     }
@@ -518,10 +548,23 @@ static void op_cart(const std::vector< std::string > &w) {
     const CoordinateVector< int_fast32_t > ix = cart->get_cell_indices(p);
     const cellsize_t li = cart->get_long_index(ix);
     const Box<> g = ((const CartesianDensityGrid *)cart)->get_cell(ix);
-    std::cout << "cart loc " << ix.x() << " " << ix.y() << " " << ix.z() << " " << (int64_t)li << " "
-              << show_box(g) << "\n";
+    // the plain index arithmetic (the model's): when rounding pushes it out of range the answer
+    // line says so and the property is checked on what the real function returns
+    int_fast32_t raw[3];
+    for (int i = 0; i < 3; ++i)
+      raw[i] = (p[i] - cart_box.get_anchor()[i]) * cart->_inverse_cellside[i];
+    const bool rawin = raw[0] >= 0 && raw[0] < cart_n.x() && raw[1] >= 0 && raw[1] < cart_n.y() &&
+                       raw[2] >= 0 && raw[2] < cart_n.z();
     const bool inr = ix.x() >= 0 && ix.x() < cart_n.x() && ix.y() >= 0 && ix.y() < cart_n.y() &&
                      ix.z() >= 0 && ix.z() < cart_n.z();
+    if (!rawin) {
+      std::cout << "cart loc out-of-range " << raw[0] << " " << raw[1] << " " << raw[2] << "\n";
+      if (!inr || !in_box(g, p, CART_TOL, sc))
+        oracle("locate-index-out-of-range cartesian");
+      return;
+    }
+    std::cout << "cart loc " << ix.x() << " " << ix.y() << " " << ix.z() << " " << (int64_t)li << " "
+              << show_box(g) << "\n";
     if (!inr) {
       oracle("locate-index-out-of-range cartesian");
       return;
@@ -973,7 +1016,10 @@ static void op_amrd(const std::vector< std::string > &w) {
   if (sub == "loc" && w.size() == 5) {
     const CoordinateVector<> p(dbl(w[2]), dbl(w[3]), dbl(w[4]));
     std::cout << "amrd loc\n";
-    if (amr_out_of_range(amrd->_grid, amrd_box, amrd->_grid._ncell, p)) {
+    if (amr_out_of_range(amrd->_grid, amrd_box, amrd->_grid._ncell, p) && !probe_ok([&]() {
+          const cellsize_t cc = amrd->get_cell_index(p);
+          return cc < nc && in_box(amrd->_cells[cc]->get_geometry(), p, AMR_TOL, sc);
+        })) {
       oracle("locate-index-out-of-range amrdensitygrid");
       return;
     }
@@ -998,7 +1044,10 @@ static void op_amrd(const std::vector< std::string > &w) {
     for (uint64_t c = 0; c < nc; ++c)
       DensityGrid::iterator(c, *amrd).get_ionization_variables().reset_mean_intensities();
     std::cout << "amrd ray\n";
-    if (amr_out_of_range(amrd->_grid, amrd_box, amrd->_grid._ncell, p0)) {
+    if (amr_out_of_range(amrd->_grid, amrd_box, amrd->_grid._ncell, p0) && !probe_ok([&]() {
+          const cellsize_t cc = amrd->get_cell_index(p0);
+          return cc < nc && in_box(amrd->_cells[cc]->get_geometry(), p0, AMR_TOL, sc);
+        })) {
       oracle("locate-index-out-of-range amrdensitygrid");
       return;
     }
